@@ -26,6 +26,16 @@ def u32_full_set():
     return L.pack(32, fs, 'U32FULL', passes=[('full', 'core4')])
 
 
+def u32_put_set():
+    """thorough C02: all 2^32 raw values x v in {0, all-ones} x {with_, set_} for 18 boundary fields"""
+    F = lambda r, k: Field(r, k, family='U32PUT')
+    fs = [F([(0, 1)], 'b'), F([(31, 1)], 'b'), F([(15, 1)], 'u'), F([(0, 3)], 'u'), F([(29, 3)], 'u'), F([(14, 5)], 'u'),
+          F([(0, 8)], 'n'), F([(24, 8)], 'n'), F([(12, 8)], 'n'), F([(23, 8)], 'i'), F([(16, 16)], 'n'), F([(17, 15)], 'u'),
+          F([(0, 17)], 'u'), F([(1, 31)], 'u'), F([(0, 32)], 'n'), F([(8, 16)], 'i'),
+          F([(24, 8), (0, 8)], 'n'), F([(31, 1), (0, 7)], 'n')]
+    return L.pack(32, fs, 'U32PUT', passes=[('full', 'core2')])
+
+
 def arr_set(tier):
     structs = []
     for n in range(2, 17):
